@@ -475,7 +475,7 @@ async def _scenario(loop, case: dict):
             label = alias_label.get(parts[0][2:], f'?{parts[0]}')
             return '/'.join([label] + parts[1:])
 
-        def delta(mk):
+        def delta(mk, tell_from):
             rf, af, ne, ns = mk
             fwd, other = {}, {}
             for r in w.remotes:
@@ -483,7 +483,9 @@ async def _scenario(loop, case: dict):
                 for f in new:
                     if isinstance(f, m.DistributedSearchRequest.Request):
                         fwd.setdefault(r.cid, []).append([f.unknown, unum(f.username), f.ticket, f.query])
-                    else:
+                    elif not (r.cid >= tell_from and isinstance(f, (m.DistributedBranchLevel.Request,
+                                                                     m.DistributedBranchRoot.Request))):
+                        # (a connection that joins during the op is told our level / root: C13's business)
                         other[r.cid] = other.get(r.cid, 0) + 1
             replies, pother = [], {}
             for n, a in askers.items():
@@ -732,7 +734,7 @@ async def _scenario(loop, case: dict):
             snap['status'] = status
             snap['before'] = before
             mk = (mk[0] + [0] * (len(w.remotes) - len(mk[0])), mk[1], mk[2], mk[3])
-            snap.update(delta(mk))
+            snap.update(delta(mk, extra.get('joined', len(w.remotes))))
             snap.update(extra)
             snap['inj'] = list(inj)
             snap['is_search'] = any(o[0] == 'search' for o in _flat_ops(op))
